@@ -412,8 +412,12 @@ func (mr *msgReader) Read(p []byte) (n int, err error) {
 		mr.dict.write(p)
 	}
 	if errors.Is(err, io.EOF) || errors.Is(err, io.ErrUnexpectedEOF) && mr.fin && mr.flate {
-		mr.putFlateReader()
-		return n, io.EOF
+		// The message only ends with the last byte of its final frame.
+		// Otherwise the connection ended in the middle of the message.
+		if mr.fin && mr.payloadLength == 0 {
+			mr.putFlateReader()
+			return n, io.EOF
+		}
 	}
 	if err != nil {
 		return n, fmt.Errorf("failed to read: %w", err)
